@@ -55,4 +55,34 @@ TEXT = {
     "C20": dict(level="Unbounded proof that each forwarding Push impl (OwnedRegion: &[T;N], &&[T;N], &&[T], Vec<T>, &Vec<T>; StringRegion: String, &String, &&str; MirrorRegion/Vec: &T, &&T; "
                       "ResultRegion: &Result) satisfies the canonical form's contract with an equal abstract value: same index, same stored content, same reads.",
                 ref="DESIGN.md §4 C20", note=_NOTE + " Forms with their own closure/iterator code path are outside the dialect.", technique=_T),
+    "C06": dict(level="Bounded (labelled as such): native bounded-exhaustive driver against the real crate — 16 (quick) / 349 (thorough) frequency profiles incl. single-symbol, Fibonacci-skewed (codes to 20 bits) "
+                      "and 257/300/600 equiprobable u16 alphabets x item shapes covering every start/end bit offset x 1-2 merge generations; exact read-back after every push, contiguous bit ranges, "
+                      "item bits = sum of code lengths, total cost equals a reference Huffman construction, outsider symbols never read back as something else, raw mode before merge / after clear. No deductive proof: "
+                      "the container is built on BTreeMap/BinaryHeap, outside what Verus or Kani can execute here.",
+                ref="DESIGN.md §4 C06", note="Trusted: the driver's oracle (reference Huffman cost, pushed sequences) and rustc's debug/release builds. Bounds as stated; nothing beyond them is decided.",
+                technique="bounded-exhaustive native driver (stand-in; contract-based proof not applicable to BTreeMap-based code here)"),
+    "C07": dict(level="Bounded (labelled as such): native bounded-exhaustive driver — 8x3 training sets over 1-2 source regions x 268 probe strings (all one-byte strings, dictionary entries, prefixes/extensions, "
+                      "strings whose first byte is an assigned tag, empty) x second merge generation x clear; >1024 distinct strings across the summary's compaction; every push is refused or read back exactly and heavy hitters cost one byte.",
+                ref="DESIGN.md §4 C07", note="Trusted: the driver's oracle and rustc's debug/release builds. Bounds as stated.",
+                technique="bounded-exhaustive native driver (stand-in; contract-based proof not applicable to BTreeMap-based code here)"),
+    "C09": dict(level="Bounded (labelled as such): twin harnesses over 12 region compositions and FlatStack (clone / clone_from into destinations pre-filled with 0..3 unrelated items, identical further push, then divergence), "
+                      "plus two mechanical program-text obligations: every hand-written clone/clone_from mentions every field, and src/ contains no shared-state primitive (so independence follows from ownership).",
+                ref="DESIGN.md §4 C09", note="Trusted: harness oracles; Clone of std types. Clone on type parameters has no usable Verus spec, so no deductive part.",
+                technique="bounded twin harnesses (native exhaustive enumeration) + program-text scans"),
+    "C14": dict(level="Bounded (labelled as such): IntoOwned laws (into_owned == pushed, borrow_as round trip, clone_onto onto 5 prior targets, reborrow, region-to-region push) on read items of slice, columns, option, result, "
+                      "nested slice regions and Huffman Wrapped items, region-backed and owned-borrowed.",
+                ref="DESIGN.md §4 C14", note="Trusted: harness oracles. The IntoOwned bodies are iterator adapters / std calls outside the Verus dialect.",
+                technique="bounded harnesses (native exhaustive enumeration)"),
+    "C15": dict(level="Bounded (labelled as such), value-complete for the stated sizes natively over a 3-value byte domain: all triples of u8 vectors of length 0..2 in every representation (two regions, owned-borrowed): ==, partial_cmp, cmp "
+                      "equal the Vecs'; reflexive, antisymmetric, transitive; Huffman Wrapped raw vs encoded for all pairs of 12 item shapes.",
+                ref="DESIGN.md §4 C15", note="Trusted: harness oracles; std's lexicographic iterator comparison is what the crate delegates to.",
+                technique="bounded harnesses (native exhaustive enumeration)"),
+    "C17": dict(level="Bounded (labelled as such), clause 1 only: for 8 vector-backed structural regions and FlatStack::merge_capacity, batches of 0..3 items, after reserve_items / reserve_regions (empty or populated target) / merge_regions, "
+                      "pushing exactly the announced contents keeps every capacity reported by heap_size constant. Clause 2 (allocator not called; O(log n) allocator calls for n = 2^6..2^14) is not decided: no contract can express an allocation count.",
+                ref="DESIGN.md §4 C17", note="Trusted: harness oracle; capacities as reported by heap_size. Clause 2 is outside the family of technique.",
+                technique="bounded harnesses (native exhaustive enumeration) on capacities reported by heap_size"),
+    "C18": dict(level="Bounded (labelled as such): recording-callback harnesses over 12 compositions and the three index containers (used <= capacity, number of pairs, sum(used) >= payload + index entries, monotone under push, "
+                      "after clear no payload accounted and no capacity shrank; index-container bytes equal the documented rule) plus a mechanical obligation that every storage-bearing field appears in its heap_size body.",
+                ref="DESIGN.md §4 C18", note="Trusted: harness oracles. HuffmanContainer::heap_size is todo!() and DictionaryCodec's is empty: outside the catalogue.",
+                technique="bounded harnesses (native exhaustive enumeration) + program-text scan"),
 }
